@@ -327,6 +327,7 @@ class Interp:
         self.keep_astype = False                   # keep x.astype(t) visible in value forms instead of treating it as the identity
         self.unroll_literal_loops = True           # execute `for row in <literal table>` row by row instead of abstracting the loop
         self.stop_at_calls: set = set()            # dotted callee names at which a top-level path is cut (counts as a return)
+        self.domain_sign = None                    # optional callable(Form) -> +1 / -1 / 0 / None: sign of a difference known from the property's domain
         self.falsy_arith: list = []                # (fi, node, operand, depth): arithmetic on a value assumed falsy (absent optional parameter)
         self.nested_raises: list = []              # raise outcomes inside inlined callees that also have returning paths
         self.keep_cond_forms = False               # record the value form of every undecided `if` test (by its source text)
@@ -362,6 +363,17 @@ class Interp:
                 if nm not in self.assumptions and isinstance(v_, Form) and v_.sym_name() == nm and _documented_not_none(fi, nm):
                     st.facts.none.setdefault(v_.key(), False)
         self._seed_facts(st)
+        # a nested function analysed on its own sees the helper functions its enclosing function defined before it (plain,
+        # unconditional `def`s of the enclosing body; their own free names resolve through the same scopes)
+        par = getattr(fi, "parent", None)
+        if par is not None and not isinstance(par.node, ast.Lambda):
+            for s_ in par.node.body:
+                if s_ is fi.node:
+                    break
+                if isinstance(s_, ast.FunctionDef) and not s_.decorator_list and s_.name not in st.env:
+                    q = next((c for c in fi.module.funcs.values() if c.node is s_), None)
+                    if q is not None:
+                        st.env[s_.name] = FuncV(q, {})
         outs = self._exec_function(fi, st, depth=0)
         self.outcomes = outs
         return outs
@@ -1143,6 +1155,11 @@ class Interp:
                 if isinstance(lv, Fraction) and isinstance(rv, Fraction):
                     self.cmp_points.update((lv, rv))
                     return {ast.Lt: lv < rv, ast.LtE: lv <= rv, ast.Gt: lv > rv, ast.GtE: lv >= rv}[type(op)]
+                if self.domain_sign is not None and isinstance(l, Form) and isinstance(r, Form):
+                    # a fact of the property's domain about the sign of l - r (e.g. "the full-scale range has positive width")
+                    sg = self.domain_sign(l - r)
+                    if sg is not None:
+                        return {ast.Lt: sg < 0, ast.LtE: sg <= 0, ast.Gt: sg > 0, ast.GtE: sg >= 0}[type(op)]
                 return None
             return None
         if isinstance(test, ast.Call):
@@ -1441,6 +1458,9 @@ class Interp:
                 tn = "complex" if c[1] != 0 else ("int" if c[0].denominator == 1 else "float")
                 return True if any(c_ in classes for c_ in _TOWER[tn]) else (None if unknown else False)
             k = v.key()
+            e_ = st.facts.eq.get(k)
+            if isinstance(e_, Const) and isinstance(e_.v, (str, bool)) or (isinstance(e_, Const) and e_.v is None):
+                return self._isinstance(e_, classes, st)       # a value assumed equal to a constant has that constant's type
             inst = st.facts.inst.get(k)
             if inst is not None:
                 for c in inst:
@@ -1945,6 +1965,9 @@ class Interp:
             return base
         if isinstance(base, Form) and base.single_atom() in (("c", "numpy.s_"), ("c", "numpy.index_exp")):
             return idx  # np.s_[...] is the index expression itself
+        if isinstance(base, Form) and isinstance(idx, Form) and idx.single_atom() and idx.single_atom()[0] == "fn" and idx.single_atom()[1] in ("argmin", "argmax") \
+                and len(idx.single_atom()[2]) == 1 and not idx.single_atom()[3] and vkey(idx.single_atom()[2][0]) == vkey(base):
+            return mk_fn(idx.single_atom()[1][3:], [base])      # y[y.argmin()] is y.min()
         if isinstance(base, Form) and _selects_all(idx):
             return base   # x[:] (and x[:, :]) is x as a value; aliasing is the business of the effect analysis
         if isinstance(idx, Form):
@@ -2451,6 +2474,10 @@ class Interp:
         return r
 
     def _method_call(self, base, attr, args, kwargs, st, fi, depth, n, rec):
+        if isinstance(base, Form) and attr in ("lower", "upper", "strip", "lstrip", "rstrip", "casefold", "startswith", "endswith", "replace", "split"):
+            e_ = st.facts.eq.get(base.key())
+            if isinstance(e_, Const) and isinstance(e_.v, str):
+                base = e_                                      # option strings are assumed by value: 'NRZ'.lower() is 'nrz'
         if isinstance(base, ObjV):
             sp = self._special_method(base, attr, args, kwargs)
             if sp is not None:
@@ -2507,7 +2534,7 @@ class Interp:
         if isinstance(base, Const) and isinstance(base.v, bool) and attr in ("any", "all") and not args:
             return base    # a decided scalar comparison: (x < 0).any() is x < 0
         if isinstance(base, Const) and isinstance(base.v, str):
-            if attr in ("lower", "upper", "strip") and not args:
+            if attr in ("lower", "upper", "strip", "lstrip", "rstrip", "casefold") and not args:
                 return Const(getattr(base.v, attr)())
             if attr == "format":
                 fs = _format_as_fstr(base.v, args, kwargs)
